@@ -579,7 +579,17 @@ func c12Monitor(args []string) int {
 			if !s.waitCount("bestmove", before+1, 15*time.Second) {
 				rep.Violate("no-bestmove", in(), "after stop of an idling infinite search")
 			} else if el := time.Since(t0); el > 1500*time.Millisecond {
-				rep.Violate("stop-not-prompt", in(), fmt.Sprintf("bestmove %s after stop (the search had been idle for seconds)", el))
+				// a loaded machine can delay one answer: the scenario is repeated and only a second slow answer counts
+				before2 := s.count("bestmove")
+				do("go infinite depth 1")
+				time.Sleep(3 * time.Second)
+				t1 := time.Now()
+				do("stop")
+				if !s.waitCount("bestmove", before2+1, 15*time.Second) {
+					rep.Violate("no-bestmove", in(), "after stop of an idling infinite search")
+				} else if el2 := time.Since(t1); el2 > 1500*time.Millisecond {
+					rep.Violate("stop-not-prompt", in(), fmt.Sprintf("bestmove %s and %s after stop (twice; the search had been idle for seconds)", el, el2))
+				}
 			}
 		}
 		// the GUI answers a bestmove while the line is still being written: the next search must not
